@@ -964,20 +964,20 @@ def nt_reject(labels):
 
 
 LAWS = [
-    Law("reflection_laws", walls_case(), body_reflection, nt_conj, quick=300, thorough=3600,
+    Law("reflection_laws", walls_case(), body_reflection, nt_conj, quick=300, thorough=2800,
         shards=(2, 6)),
     Law("from_reflection_roundtrip", walls_case(), body_from_reflection, nt_conj, quick=300,
-        thorough=3600, shards=(2, 6)),
+        thorough=2800, shards=(2, 6)),
     Law("non_reflection_rejected", nonrefl_case(), body_nonreflection, nt_reject, quick=300,
-        thorough=3600, shards=(1, 4)),
+        thorough=2800, shards=(1, 4)),
     Law("fixed_points_elliptic", elliptic_case(), body_fix_elliptic, nt_conj,
-        quick=400, thorough=5000, shards=(2, 8)),
+        quick=400, thorough=4000, shards=(2, 8)),
     Law("fixed_points_loxodromic", fix_case(lox_unit), body_fix_loxodromic, nt_conj,
-        quick=300, thorough=3600, shards=(2, 6)),
+        quick=300, thorough=2800, shards=(2, 6)),
     Law("fixed_points_parabolic", fix_case(par_unit), body_fix_parabolic, nt_conj,
-        quick=400, thorough=3600, shards=(1, 4)),
+        quick=400, thorough=2800, shards=(1, 4)),
     Law("fixed_points_unsorted_option", unsorted_case(), body_unsorted, nt_conj, quick=300,
-        thorough=2500, shards=(1, 4)),
+        thorough=2000, shards=(1, 4)),
     Law("coxeter_reflections", coxeter_case(), body_coxeter, lambda l: True, quick=60,
         thorough=800, shards=(1, 2)),
 ]
